@@ -1,15 +1,43 @@
 import Agd.Gen.TrC04
 import Agd.Model.Cache
+import Agd.Lemmas.Cache
 /-!
-# C04: `roundDiv` of the model is the translated source
+# C04: the decision code of both response caches, as translated from the source
 
-`Agd.Gen.TrC04.roundDiv` is regenerated from `internal/ecscache/cache.go` on every run
-(`extract/tr.go`): Go's truncating division is `Int.tdiv`, a zero divisor is a panic (`none`).
+`Agd.Gen.TrC04.*` are regenerated on every run (`extract/tr.go`) from `internal/ecscache/{cache,msg,ecscache}.go`,
+`internal/dnsserver/cache/cache.go` and `internal/dnsmsg/dnsmsg.go`.  Integers are `Int` (Go's truncating division is
+`Int.tdiv`, a zero divisor or a nil dereference is `none` = panic, `uint32(x)` is `goWrapU 2^32 x`); library calls
+(`FindLowestTTL`, `time.Since`, the LRU caches, `toCacheKey`, `Clone`, …) are opaque: their results are parameters and
+the definitions return the *trace* of the calls made and of the fields of library objects written, in order; values of
+library types are symbolic names (`"mw.cache"`, `"mw.ecsCache"`, `"nil"`).
+
+Part 1 proves that the hand-written model (`Agd/Model/Cache.lean`) computes what the translated source computes, for
+all inputs; part 2 states clauses of the property directly on the translated code.
 -/
 namespace Agd.Tie.TrC04
-open Agd.Gen.TrC04 Agd.TrPrelude
+open Agd.Gen.TrC04 Agd.TrPrelude Agd.Cache
 
 theorem translation_complete : translationFailures = [] := by decide
+
+/-- Names of the calls / writes in a trace. -/
+def names (tr : List (String × List String)) : List String := tr.map (·.1)
+
+/-- `a` occurs in the list and `b` occurs somewhere after that occurrence. -/
+def before (a b : String) : List String → Bool
+  | [] => false
+  | x :: xs => if x == a then xs.contains b else before a b xs
+
+/-- The lifetime handed to the cache (`SetWithExpire`'s last argument), if the trace stores at all. -/
+def expiryOf (tr : List (String × List String)) : Option String :=
+  (tr.find? (fun e => e.1 == "SetWithExpire")).bind (·.2.getLast?)
+
+/-- Does the trace look an item up in the named cache (second argument of `itemFromCache`)? -/
+def consults (cache : String) (tr : List (String × List String)) : Bool :=
+  tr.any fun e => e.1 == "itemFromCache" && e.2[1]? == some cache
+
+theorem ts_true : toString true = "true" := rfl
+
+/-! ## Part 1 — model = translated source -/
 
 /-- For every numerator and every non-zero denominator the source computes the model's `roundDiv`;
 with a zero denominator it panics (the only caller passes `time.Second`). -/
@@ -26,7 +54,384 @@ theorem roundDiv_tr (num denom : Int) :
 example : Agd.Gen.TrC04.roundDiv 1500000000 1000000000 = some 2 ∧ Agd.Gen.TrC04.roundDiv 1499999999 1000000000 = some 1 ∧
     Agd.Gen.TrC04.roundDiv 7 0 = none := by decide
 
-end Agd.Tie.TrC04
+theorem roundDiv_sec (x : Int) :
+    Agd.Gen.TrC04.roundDiv x 1000000000 = some (Agd.Cache.roundDiv x 1000000000) := by
+  rw [roundDiv_tr, if_neg (by omega)]
 
-#print axioms Agd.Tie.TrC04.translation_complete
-#print axioms Agd.Tie.TrC04.roundDiv_tr
+/-- `respIsECSDependent(scope, fqdn)` is the model's `Ecs.respDep` (scope is a `uint8`; `fake` = `FakeECSFQDNs.Has(fqdn)`). -/
+theorem respIsECSDependent_tr (scope : Nat) (fqdn : String) (fake : Bool) :
+    respIsECSDependent (scope : Int) fqdn fake = Ecs.respDep scope fake := by
+  have h : ((scope : Int) = 0) = (scope = 0) := propext (by omega)
+  simp only [respIsECSDependent, Ecs.respDep, h]
+  by_cases a : scope = 0 <;> simp [a]
+
+/-- `isCacheable` of the ECS cache is the model's, for every message (truncation flag, number of questions, rcode and
+the verdict of `isCacheableNOERROR` are what the source reads). -/
+theorem ecs_isCacheable_tr (qt : Nat) (m : Msg) :
+    ecs_isCacheable m.tc (m.nq : Int) (m.rcode : Int) (cacheableNoErr qt m) = isCacheable qt m := by
+  have h1 : ((m.nq : Int) = 1) = (m.nq = 1) := propext (by omega)
+  have h0 : ((m.rcode : Int) = 0) = (m.rcode = 0) := propext (by omega)
+  have h3 : ((m.rcode : Int) = 3) = (m.rcode = 3) := propext (by omega)
+  have h2 : ((m.rcode : Int) = 2) = (m.rcode = 2) := propext (by omega)
+  simp only [ecs_isCacheable, isCacheable, rcSuccess, rcNameError, rcServFail, h1, h0, h2, h3]
+  cases m.tc <;> by_cases a : m.nq = 1 <;> by_cases b : m.rcode = 0 <;> by_cases c : m.rcode = 3 <;>
+    by_cases d : m.rcode = 2 <;> simp [a, b, c, d]
+
+/-- The simple cache's `isCacheable` is the same function as the ECS cache's (the model has one `isCacheable`). -/
+theorem simple_isCacheable_same (tc : Bool) (nq rc : Int) (noerr : Bool) :
+    simple_isCacheable tc nq rc noerr = ecs_isCacheable tc nq rc noerr := by
+  simp [simple_isCacheable, ecs_isCacheable]
+
+/-- `dnsmsg.getTTLIfLower` is the model's `ttlIfLower`: OPT records are skipped, a SOA contributes its MINIMUM. -/
+theorem dnsmsg_getTTLIfLower_tr (r : RR) (t : Nat) :
+    dnsmsg_getTTLIfLower (t : Int) (decide (r.typ = typOPT)) (decide (r.typ = typSOA)) (r.soaMin : Int) (r.ttl : Int)
+      = ((ttlIfLower r t : Nat) : Int) := by
+  have ne : ¬ (typSOA = typOPT) := by decide
+  unfold dnsmsg_getTTLIfLower ttlIfLower
+  by_cases a : r.typ = typOPT
+  · simp [a]
+  · by_cases b : r.typ = typSOA
+    · by_cases c : 0 < r.soaMin ∧ r.soaMin < t
+      · have c' : (0 : Int) < r.soaMin ∧ (r.soaMin : Int) < t := by omega
+        simp [b, c, c', ne]; omega
+      · simp [b, c, ne]; omega
+    · simp [a, b]; omega
+
+/-- The simple cache's private copy of `getTTLIfLower` computes the same as `dnsmsg`'s, for all inputs. -/
+theorem simple_getTTLIfLower_same (ttl : Int) (opt soa : Bool) (minttl httl : Int) :
+    simple_getTTLIfLower ttl opt soa minttl httl = dnsmsg_getTTLIfLower ttl opt soa minttl httl := by
+  unfold simple_getTTLIfLower dnsmsg_getTTLIfLower
+  cases opt <;> cases soa <;> simp <;> (try split) <;> simp [Int.min_def] <;> (try split) <;> omega
+
+example : dnsmsg_getTTLIfLower 300 false true 60 3600 = 60 ∧ dnsmsg_getTTLIfLower 300 true false 0 5 = 300 := by decide
+
+/-- The model's lifetime of a stored answer (`prepStore`), as a function of the lowest TTL and the rcode. -/
+def lifeOf (cfg : Cfg) (low rc : Nat) : Nat :=
+  if cfg.override = true ∧ rc ≠ 2 then max (low * 1000000000) cfg.minTTL else low * 1000000000
+
+theorem prepStore_life (cfg : Cfg) (qt : Nat) (m : Msg) :
+    (prepStore cfg qt m).2 =
+      if findLowestTTL m = 0 ∨ isCacheable qt m = false then none else some (lifeOf cfg (findLowestTTL m) m.rcode) := by
+  unfold prepStore lifeOf
+  by_cases h1 : findLowestTTL m = 0 ∨ isCacheable qt m = false
+  · rw [if_pos h1, if_pos h1]
+  · rw [if_neg h1, if_neg h1]
+    by_cases h2 : cfg.override = true ∧ m.rcode ≠ rcServFail
+    · rw [if_pos h2, if_pos (show cfg.override = true ∧ m.rcode ≠ 2 from h2)]; rfl
+    · rw [if_neg h2, if_neg (show ¬ (cfg.override = true ∧ m.rcode ≠ 2) from h2)]; rfl
+
+theorem lifeOf_cast (low rc mn : Nat) (ov : Bool) :
+    ((lifeOf ⟨mn, ov⟩ low rc : Nat) : Int) =
+      if ov = true ∧ (rc : Int) ≠ 2 then max ((low : Int) * 1000000000) (mn : Int) else (low : Int) * 1000000000 := by
+  unfold lifeOf
+  by_cases h : ov = true ∧ rc ≠ 2
+  · have h' : ov = true ∧ (rc : Int) ≠ 2 := ⟨h.1, by omega⟩
+    rw [if_pos h, if_pos h']; dsimp only; omega
+  · have h' : ¬ (ov = true ∧ (rc : Int) ≠ 2) := fun x => h ⟨x.1, by omega⟩
+    rw [if_neg h, if_neg h']; omega
+
+/-- Expiry the simple cache's `set` passes to the LRU, as the source computes it. -/
+def simpleExp (cfg : S_cache_Middleware) (ttl rc : Int) : Int :=
+  if cfg.overrideTTL = true ∧ rc ≠ 2 then max (ttl * 1000000000) cfg.cacheMinTTL else ttl * 1000000000
+/-- Same for the ECS cache. -/
+def ecsExp (mw : S_ecscache_Middleware) (ttl rc : Int) : Int :=
+  if mw.overrideTTL = true ∧ rc ≠ 2 then max (ttl * 1000000000) mw.cacheMinTTL else ttl * 1000000000
+
+/-- Simple cache `set`: nothing happens (no call, no error) for a nil middleware, a zero lowest TTL or an
+uncacheable message. -/
+theorem simple_set_skips (m : Option S_cache_Middleware) (ttl rc : Int) (cacheable : Bool) (key : String)
+    (item : S_cache_cacheItem) (res : Option String) (h : m = none ∨ ttl = 0 ∨ cacheable = false) :
+    simple_set m ttl cacheable rc key item res = some (none, []) := by
+  rcases h with h | h | h <;> cases m <;> simp [simple_set, h]
+
+theorem simple_expiry (cfg : S_cache_Middleware) (ttl rc : Int) (key : String) (item : S_cache_cacheItem)
+    (res : Option String) (h0 : ttl ≠ 0) :
+    (simple_set (some cfg) ttl true rc key item res).map (fun r => expiryOf r.2) = some (some (toString (simpleExp cfg ttl rc))) := by
+  by_cases a : cfg.overrideTTL = true <;> by_cases b : rc = 2 <;>
+    simp [simple_set, simpleExp, expiryOf, h0, a, b]
+
+/-- Simple cache `set` = model `prepStore`: for every configuration and message, the source stores iff the model
+does, and with the model's lifetime (in nanoseconds). -/
+theorem simple_set_tr (cfg : Cfg) (qt : Nat) (m : Msg) (key : String) (item : S_cache_cacheItem) (res : Option String) :
+    (simple_set (some ⟨cfg.minTTL, cfg.override⟩) (findLowestTTL m) (isCacheable qt m) m.rcode key item res).map
+        (fun r => expiryOf r.2)
+      = some ((prepStore cfg qt m).2.map fun (life : Nat) => toString (Int.ofNat life)) := by
+  rw [prepStore_life]
+  by_cases h : findLowestTTL m = 0 ∨ isCacheable qt m = false
+  · rw [if_pos h]
+    have h' : (some ⟨cfg.minTTL, cfg.override⟩ : Option S_cache_Middleware) = none ∨ (findLowestTTL m : Int) = 0 ∨
+        isCacheable qt m = false := by
+      rcases h with h | h
+      · exact Or.inr (Or.inl (by omega))
+      · exact Or.inr (Or.inr h)
+    rw [simple_set_skips _ _ _ _ _ _ _ h']
+    rfl
+  · rw [if_neg h]
+    have h0 : (findLowestTTL m : Int) ≠ 0 := by omega
+    have hc : isCacheable qt m = true := by cases c : isCacheable qt m <;> simp_all
+    rw [hc, simple_expiry _ _ _ _ _ _ h0, Option.map_some]
+    show _ = some (some (toString ((lifeOf cfg (findLowestTTL m) m.rcode : Nat) : Int)))
+    rw [lifeOf_cast]
+    rfl
+
+theorem ecs_set_skips (mw : S_ecscache_Middleware) (cr : Option S_ecscache_cacheRequest) (dep : Bool) (ttl rc key : Int)
+    (cacheable : Bool) (h : ttl = 0 ∨ cacheable = false) :
+    ecs_set mw cr dep ttl cacheable rc key = [] := by
+  rcases h with h | h <;> simp [ecs_set, h]
+
+theorem ecs_expiry (mw : S_ecscache_Middleware) (cr : Option S_ecscache_cacheRequest) (dep : Bool) (ttl rc key : Int)
+    (h0 : ttl ≠ 0) : expiryOf (ecs_set mw cr dep ttl true rc key) = some (toString (ecsExp mw ttl rc)) := by
+  cases dep <;> by_cases a : mw.overrideTTL = true <;> by_cases b : rc = 2 <;>
+    simp [ecs_set, ecsExp, expiryOf, h0, a, b]
+
+/-- ECS cache `set` = model `prepStore` (same statement as for the simple cache). -/
+theorem ecs_set_tr (cfg : Cfg) (qt : Nat) (m : Msg) (cloner : Option S_dnsmsg_Cloner) (cr : Option S_ecscache_cacheRequest)
+    (dep : Bool) (key : Int) :
+    expiryOf (ecs_set ⟨cloner, cfg.minTTL, cfg.override⟩ cr dep (findLowestTTL m) (isCacheable qt m) m.rcode key)
+      = (prepStore cfg qt m).2.map fun (life : Nat) => toString (Int.ofNat life) := by
+  rw [prepStore_life]
+  by_cases h : findLowestTTL m = 0 ∨ isCacheable qt m = false
+  · rw [if_pos h]
+    have h' : (findLowestTTL m : Int) = 0 ∨ isCacheable qt m = false := by
+      rcases h with h | h
+      · exact Or.inl (by omega)
+      · exact Or.inr h
+    rw [ecs_set_skips _ _ _ _ _ _ _ h']
+    rfl
+  · rw [if_neg h]
+    have h0 : (findLowestTTL m : Int) ≠ 0 := by omega
+    have hc : isCacheable qt m = true := by cases c : isCacheable qt m <;> simp_all
+    rw [hc, ecs_expiry _ _ _ _ _ _ h0, Option.map_some]
+    show _ = some (toString ((lifeOf cfg (findLowestTTL m) m.rcode : Nat) : Int))
+    rw [lifeOf_cast]
+    rfl
+
+/-- The TTL the source computes when time is left: `uint32(roundDiv(timeLeft, 1s))` is the model's `ecsTTL`. -/
+theorem ttl_val (low age : Nat) (hlow : low < 4294967296) (h : 0 < (low : Int) * 1000000000 - age) :
+    goWrapU 4294967296 (Agd.Cache.roundDiv ((low : Int) * 1000000000 - age) 1000000000) = ((ecsTTL low age : Nat) : Int) := by
+  have hn : (low : Int) * 1000000000 - age = ((low * 1000000000 - age : Nat) : Int) := by omega
+  rw [ecsTTL_eq]
+  unfold leftRounded sec
+  rw [if_pos (by omega), hn, roundDiv_pos, goWrapU_of_range (by omega) (by omega)]
+
+theorem ttl_zero (low age : Nat) (h : ¬ 0 < (low : Int) * 1000000000 - age) : (0 : Int) = ((ecsTTL low age : Nat) : Int) := by
+  rw [ecsTTL_eq]
+  unfold leftRounded sec
+  rw [if_neg (by omega)]
+  rfl
+
+/-- ECS `fromCacheItem` = model `ecsTTL`: for every lowest TTL (a `uint32`) and every age, the first thing done is
+cloning the cached message (the cache's copy is never written), the clone is what is returned, and every TTL written
+into a record of the clone is the model's `ecsTTL low age` — nothing else. -/
+theorem fromCacheItem_tr (item : Option S_ecscache_cacheItem) (cloner : Option S_dnsmsg_Cloner) (reqDO : Bool)
+    (low age : Nat) (hlow : low < 4294967296) (rcode : Int) (ad : Bool) (resp : String) (tr : List (String × List String))
+    (hr : ecs_fromCacheItem item cloner reqDO (low : Int) (age : Int) rcode ad = some (resp, tr)) :
+      resp ≠ "nil" ∧ tr.head? = some ("Clone", ["item.msg"]) ∧
+      "set rr.Header().Ttl" ∈ names tr ∧
+      (∀ e ∈ tr, e.1 = "set rr.Header().Ttl" → e.2 = [toString ((ecsTTL low age : Nat) : Int)]) := by
+  by_cases h : 0 < (low : Int) * 1000000000 - age
+  · rw [← ttl_val low age hlow h]
+    have h' : (age : Int) < low * 1000000000 := by omega
+    simp [ecs_fromCacheItem, roundDiv_sec, h'] at hr
+    obtain ⟨rfl, rfl⟩ := hr
+    simp [names]
+  · rw [← ttl_zero low age h]
+    have h' : ¬ (age : Int) < low * 1000000000 := by omega
+    simp [ecs_fromCacheItem, h'] at hr
+    obtain ⟨rfl, rfl⟩ := hr
+    simp [names]
+
+example : (4294967295 : Nat) < 4294967296 := by decide
+
+/-- `fromCacheItem` never panics, whatever `FindLowestTTL` and the clock return (also a clock that ran backwards). -/
+theorem fromCacheItem_no_panic (item : Option S_ecscache_cacheItem) (cloner : Option S_dnsmsg_Cloner) (reqDO : Bool)
+    (low since : Int) (rcode : Int) (ad : Bool) : ecs_fromCacheItem item cloner reqDO low since rcode ad ≠ none := by
+  by_cases h : since < low * 1000000000 <;> simp [ecs_fromCacheItem, roundDiv_sec, h]
+
+def toItem (e : Option Entry) (h : String) : Option S_ecscache_cacheItem × Bool := (e.map fun _ => ⟨h⟩, e.isSome)
+
+/-- ECS `get` = model `Ecs.lookup`: with the two caches answering as the model's store does, the source serves from
+cache iff the model does, and reports "ECS dependent" iff the entry came from the ECS-aware cache. -/
+theorem ecs_get_tr (s : Store) (now : Nat) (r : Req) (mw : S_ecscache_Middleware) (k1 k2 : Int)
+    (resp : String) (dep : Bool) (tr : List (String × List String))
+    (h : ecs_get mw (some ⟨Ecs.host r, r.qtype, r.qclass, r.do_, r.declined⟩) k1
+        (toItem (s.live now (Ecs.keyNo r)) (Ecs.host r)) k2 (toItem (s.live now (Ecs.keyDep r)) (Ecs.host r)) = some (resp, dep, tr)) :
+      (resp ≠ "nil" ↔ (Ecs.lookup s now r).isSome) ∧
+      (dep = true ↔ (s.live now (Ecs.keyNo r)).isNone ∧ r.declined = false ∧ (s.live now (Ecs.keyDep r)).isSome) := by
+  unfold Ecs.lookup
+  cases h1 : s.live now (Ecs.keyNo r) <;> cases h2 : s.live now (Ecs.keyDep r) <;> cases h3 : r.declined <;>
+    simp [ecs_get, toItem, h1, h2, h3] at h <;> obtain ⟨rfl, rfl, rfl⟩ := h <;> simp
+
+/-! ## Part 2 — clauses of the property, on the translated code -/
+
+/-- Only complete answers are cacheable: not truncated, exactly one question, and NOERROR (then the verdict of
+`isCacheableNOERROR`), NXDOMAIN or SERVFAIL — nothing else, for both caches. -/
+theorem isCacheable_only_complete (tc : Bool) (nq rc : Int) (noerr : Bool) :
+    ecs_isCacheable tc nq rc noerr = true ↔ tc = false ∧ nq = 1 ∧ (rc = 0 ∧ noerr = true ∨ rc = 3 ∨ rc = 2) := by
+  unfold ecs_isCacheable
+  cases tc <;> by_cases a : nq = 1 <;> by_cases b : rc = 0 <;> by_cases c : rc = 3 <;> by_cases d : rc = 2 <;>
+    simp [a, b, c, d] <;> omega
+
+/-- `getTTLIfLower` never raises the running minimum, and never returns more than the record's own TTL unless the
+record is an OPT pseudo-record. -/
+theorem getTTLIfLower_le (ttl : Int) (opt soa : Bool) (minttl httl : Int) :
+    dnsmsg_getTTLIfLower ttl opt soa minttl httl ≤ ttl ∧ (opt = false → dnsmsg_getTTLIfLower ttl opt soa minttl httl ≤ httl) := by
+  unfold dnsmsg_getTTLIfLower
+  cases opt <;> cases soa <;> simp <;> (try split) <;> omega
+
+/-- `itemFromCache` asks the cache for exactly the given key; a miss is a miss. -/
+theorem itemFromCache_miss (mw : S_ecscache_Middleware) (key : Int) (cr : Option S_ecscache_cacheRequest)
+    (item : Option S_ecscache_cacheItem) :
+    ecs_itemFromCache mw key cr (item, false) = some (none, false, [("Get", [toString key])]) := by
+  simp [ecs_itemFromCache]
+
+/-- An entry is returned only if its stored host equals the request's host: an entry cached for a different name
+(a collision of the 64-bit key) is never served. -/
+theorem itemFromCache_hit (mw : S_ecscache_Middleware) (key : Int) (cr : S_ecscache_cacheRequest)
+    (item : S_ecscache_cacheItem) :
+    ecs_itemFromCache mw key (some cr) (some item, true) =
+      some (if item.host = cr.host then (some item, true, [("Get", [toString key])])
+            else (none, false, [("Get", [toString key])])) := by
+  by_cases h : item.host = cr.host <;> simp [ecs_itemFromCache, h]
+
+/-- `itemFromCache` panics exactly when the cache reports a hit with a nil item, or the request data is nil on a hit. -/
+theorem itemFromCache_no_panic (mw : S_ecscache_Middleware) (key : Int) (cr : Option S_ecscache_cacheRequest)
+    (g : Option S_ecscache_cacheItem × Bool) :
+    ecs_itemFromCache mw key cr g ≠ none ↔ (g.2 = true → g.1 ≠ none ∧ cr ≠ none) := by
+  obtain ⟨i, ok⟩ := g
+  cases ok <;> cases i <;> cases cr <;> simp [ecs_itemFromCache] <;> split <;> simp
+
+/-- Simple cache `set`, storing case: exactly one `SetWithExpire`, last, under the key of the message, with lifetime
+`ttl·1s` — raised to the configured minimum only when the override is on and the answer is not SERVFAIL; `setMinTTL`
+is called (first, with that lifetime in whole seconds) exactly in that case; the cache's error is returned. -/
+theorem simple_set_stores (cfg : S_cache_Middleware) (ttl rc : Int) (key : String) (item : S_cache_cacheItem)
+    (res : Option String) (h0 : ttl ≠ 0) :
+    ∃ tr, simple_set (some cfg) ttl true rc key item res = some (res, tr) ∧
+      tr.getLast? = some ("SetWithExpire", [key, "_", toString (simpleExp cfg ttl rc)]) ∧
+      (names tr).count "SetWithExpire" = 1 ∧
+      (if cfg.overrideTTL = true ∧ rc ≠ 2 then
+          tr.head? = some ("setMinTTL", ["_", toString (goWrapU 4294967296 ((simpleExp cfg ttl rc).tdiv 1000000000))])
+        else "setMinTTL" ∉ names tr) := by
+  by_cases a : cfg.overrideTTL = true <;> by_cases b : rc = 2 <;>
+    simp [simple_set, simpleExp, names, h0, a, b]
+
+/-- SERVFAIL answers are never kept longer than their (capped) lowest TTL, whatever the override says. -/
+theorem servfail_not_overridden (cfg : S_cache_Middleware) (mw : S_ecscache_Middleware) (ttl : Int) :
+    simpleExp cfg ttl 2 = ttl * 1000000000 ∧ ecsExp mw ttl 2 = ttl * 1000000000 := by
+  simp [simpleExp, ecsExp]
+
+/-- Simple cache `set` never panics. -/
+theorem simple_set_no_panic (m : Option S_cache_Middleware) (ttl rc : Int) (cacheable : Bool) (key : String)
+    (item : S_cache_cacheItem) (res : Option String) :
+    simple_set m ttl cacheable rc key item res ≠ none := by
+  cases m with
+  | none => simp [simple_set]
+  | some cfg =>
+    by_cases h : ttl = 0 ∨ cacheable = false
+    · rw [simple_set_skips _ _ _ _ _ _ _ (Or.inr h)]; simp
+    · have h0 : ttl ≠ 0 := fun e => h (Or.inl e)
+      have hc : cacheable = true := by cases cacheable <;> simp_all
+      subst hc
+      obtain ⟨tr, e, _⟩ := simple_set_stores cfg ttl rc key item res h0
+      rw [e]; simp
+
+/-- ECS cache `set`, storing case: one `SetWithExpire`, last, into `mw.ecsCache` iff the answer is ECS dependent
+(else `mw.cache`), under the key computed *with that same flag*, of a clone made before, with the lifetime `ecsExp`;
+`SetMinTTL` first and only when the override applies. -/
+theorem ecs_set_stores (mw : S_ecscache_Middleware) (cr : Option S_ecscache_cacheRequest) (dep : Bool) (ttl rc key : Int)
+    (h0 : ttl ≠ 0) :
+    let tr := ecs_set mw cr dep ttl true rc key
+    tr.getLast? = some ("SetWithExpire",
+        [if dep then "mw.ecsCache" else "mw.cache", toString key, "_", toString (ecsExp mw ttl rc)]) ∧
+      (names tr).count "SetWithExpire" = 1 ∧
+      ("toCacheKey", ["_", toString dep]) ∈ tr ∧ (names tr).count "toCacheKey" = 1 ∧
+      "Clone" ∈ names tr.dropLast ∧
+      (if mw.overrideTTL = true ∧ rc ≠ 2 then
+          tr.head? = some ("SetMinTTL", ["_", toString (goWrapU 4294967296 ((ecsExp mw ttl rc).tdiv 1000000000))])
+        else "SetMinTTL" ∉ names tr) := by
+  cases dep <;> by_cases a : mw.overrideTTL = true <;> by_cases b : rc = 2 <;>
+    simp [ecs_set, ecsExp, names, h0, a, b]
+
+/-- ECS `get`: a hit in the ECS-independent cache is served as "not ECS dependent" and the ECS-aware cache is not
+even consulted. -/
+theorem get_noecs_hit (mw : S_ecscache_Middleware) (cr : Option S_ecscache_cacheRequest) (k1 k2 : Int)
+    (i1 : Option S_ecscache_cacheItem) (g2 : Option S_ecscache_cacheItem × Bool)
+    (resp : String) (dep : Bool) (tr : List (String × List String))
+    (h : ecs_get mw cr k1 (i1, true) k2 g2 = some (resp, dep, tr)) :
+    resp ≠ "nil" ∧ dep = false ∧ ("itemFromCache", ["_", "mw.cache", toString k1, "_"]) ∈ tr ∧
+      consults "mw.ecsCache" tr = false := by
+  simp [ecs_get] at h
+  obtain ⟨rfl, rfl, rfl⟩ := h
+  simp [consults]
+
+/-- A client that declined ECS (zero-length prefix) is never served from the ECS-aware cache. -/
+theorem get_declined_miss (mw : S_ecscache_Middleware) (cr : S_ecscache_cacheRequest) (k1 k2 : Int)
+    (i1 : Option S_ecscache_cacheItem) (g2 : Option S_ecscache_cacheItem × Bool) (hd : cr.isECSDeclined = true)
+    (resp : String) (dep : Bool) (tr : List (String × List String))
+    (h : ecs_get mw (some cr) k1 (i1, false) k2 g2 = some (resp, dep, tr)) :
+    resp = "nil" ∧ dep = false ∧ consults "mw.ecsCache" tr = false := by
+  simp [ecs_get, hd] at h
+  obtain ⟨rfl, rfl, rfl⟩ := h
+  simp [consults]
+
+/-- Otherwise the ECS-aware cache is consulted second, under the key computed with `respIsECSDependent = true`, and
+its verdict is the result. -/
+theorem get_ecs_lookup (mw : S_ecscache_Middleware) (cr : S_ecscache_cacheRequest) (k1 k2 : Int)
+    (i1 i2 : Option S_ecscache_cacheItem) (ok2 : Bool) (hd : cr.isECSDeclined = false)
+    (resp : String) (dep : Bool) (tr : List (String × List String))
+    (h : ecs_get mw (some cr) k1 (i1, false) k2 (i2, ok2) = some (resp, dep, tr)) :
+    dep = ok2 ∧ (resp = "nil" ↔ ok2 = false) ∧
+      ("itemFromCache", ["_", "mw.cache", toString k1, "_"]) ∈ tr ∧
+      ("toCacheKey", ["_", "true"]) ∈ tr ∧ ("itemFromCache", ["_", "mw.ecsCache", toString k2, "_"]) ∈ tr := by
+  cases ok2 <;> simp [ecs_get, hd] at h <;> obtain ⟨rfl, rfl, rfl⟩ := h <;> simp [ts_true]
+
+/-- `get` panics only on a nil cache request after a miss in the first cache. -/
+theorem get_no_panic (mw : S_ecscache_Middleware) (cr : Option S_ecscache_cacheRequest) (k1 k2 : Int)
+    (g1 g2 : Option S_ecscache_cacheItem × Bool) :
+    ecs_get mw cr k1 g1 k2 g2 ≠ none ↔ (g1.2 = true ∨ cr ≠ none) := by
+  obtain ⟨i1, ok1⟩ := g1
+  cases ok1 <;> cases cr <;> simp [ecs_get]
+  all_goals (split <;> (try split) <;> exact Option.some_ne_none _)
+
+/-- `writeUpstreamResponse`, upstream answer with readable ECS data: hop-to-hop data is removed before the answer is
+stored, it is stored (once) before the AD bit is masked for this client, with the flag `respIsECSDependent(scope, …)`
+returned; for an ECS-independent answer the request's subnet is reset to the zero prefix before the key is computed. -/
+theorem upstream_store_order (mw : S_ecscache_Middleware) (ri : S_agd_RequestInfo) (cr : S_ecscache_cacheRequest)
+    (fam scope : Int) (dep : Bool) (qn : String) (ad : Bool) (e2 e4 e5 e6 e7 : Option String)
+    (err : Option String) (tr : List (String × List String))
+    (h : ecs_writeUpstreamResponse mw (some ri) (some cr) fam ((), scope, none) e2 dep qn ad e4 e5 e6 e7 = some (err, tr)) :
+    before "rmHopToHopData" "set" (names tr) = true ∧ before "set" "setRespAD" (names tr) = true ∧
+      (names tr).count "set" = 1 ∧
+      ("respIsECSDependent", [toString scope, qn]) ∈ tr ∧ ("set", ["_", "_", toString dep]) ∈ tr ∧
+      (dep = false → before "set cr.subnet" "set" (names tr) = true) := by
+  cases dep <;> cases hE : ri.ECS <;> cases e4 <;> cases e6 <;>
+    simp [ecs_writeUpstreamResponse, hE] at h <;> obtain ⟨rfl, rfl⟩ := h <;> simp [names, before]
+
+/-- An upstream answer whose ECS option cannot be read is neither stored nor written. -/
+theorem upstream_bad_ecs_not_stored (mw : S_ecscache_Middleware) (ri : Option S_agd_RequestInfo)
+    (cr : Option S_ecscache_cacheRequest) (fam scope : Int) (dep : Bool) (qn : String) (ad : Bool)
+    (e e2 e4 e5 e6 e7 : Option String) (he : e ≠ none)
+    (err : Option String) (tr : List (String × List String))
+    (h : ecs_writeUpstreamResponse mw ri cr fam ((), scope, e) e2 dep qn ad e4 e5 e6 e7 = some (err, tr)) :
+    err = e2 ∧ "set" ∉ names tr ∧ "WriteMsg" ∉ names tr := by
+  cases e with
+  | none => exact absurd rfl he
+  | some x =>
+    simp [ecs_writeUpstreamResponse] at h
+    obtain ⟨rfl, rfl⟩ := h
+    simp [names]
+
+/-- `writeUpstreamResponse` never panics when request info and cache request are non-nil. -/
+theorem upstream_no_panic (mw : S_ecscache_Middleware) (ri : S_agd_RequestInfo) (cr : S_ecscache_cacheRequest)
+    (fam : Int) (g : Unit × Int × Option String) (dep : Bool) (qn : String) (ad : Bool) (e2 e4 e5 e6 e7 : Option String) :
+    ecs_writeUpstreamResponse mw (some ri) (some cr) fam g e2 dep qn ad e4 e5 e6 e7 ≠ none := by
+  obtain ⟨u, scope, e⟩ := g
+  cases e <;> cases dep <;> cases hE : ri.ECS <;> cases e4 <;> cases e6 <;> simp [ecs_writeUpstreamResponse, hE]
+
+/-- Concrete run: TTL 2 s cached 1.6 s ago is served with TTL 0 (rounded), 1.4 s ago with TTL 1. -/
+example : (ecs_fromCacheItem none none false 2 1600000000 0 false).map (fun r => r.2.filter (·.1 == "set rr.Header().Ttl"))
+      = some [("set rr.Header().Ttl", ["0"])] ∧
+    (ecs_fromCacheItem none none false 2 1400000000 0 false).map (fun r => r.2.filter (·.1 == "set rr.Header().Ttl"))
+      = some [("set rr.Header().Ttl", ["1"])] := by decide
+
+end Agd.Tie.TrC04
